@@ -27,6 +27,7 @@ class Scenario:
     nest_at: dict                  # uid -> callback name that issues the nested sends
     yields: dict                   # asyncio: callback name -> number of `await asyncio.sleep(0)` (0-2)
     split: list = dataclasses.field(default_factory=list)   # asyncio: uids whose send is `c = sm.send(); await sleep(0); await c`
+    gaps: list = dataclasses.field(default_factory=list)    # asyncio: gaps[i] = number of `await asyncio.sleep(0)` sender i does before each send
     gran: str = "full"             # threads: "full" = every line of event/statemachine/sync/base; "engine" = sync/base only
     name: str = "scn"
 
@@ -61,7 +62,7 @@ class Scenario:
     def describe(self):
         return (f"{self.kind} senders={self.n} events={[len(p) for p in self.progs]} "
                 f"nested={sum(len(v) for v in self.nest.values())} yields={sum(self.yields.values())} "
-                f"split={len(self.split)} gran={self.gran}")
+                f"split={len(self.split)} gaps={self.gaps} gran={self.gran}")
 
 
 PROBE_UID = 9999
